@@ -1760,6 +1760,9 @@ def bigcpu_cases(seed, thorough):
     cases = [{"kind": "set", "cpus": s} for s in sets]
     cases += [{"kind": "kset", "cpus": sorted(set(s))} for s in sets[::3]]
     cases += [{"kind": "invalid", "cpus": s} for s in ([256], [300, 1023], [256, 257, 1000])]
+    # numbers whose low 32 bits are a real CPU: no such CPU exists all the same
+    cases += [{"kind": "invalid", "cpus": s, "overflow_ok": True}
+              for s in ([2 ** 32 + 3], [2 ** 33 + 70], [2 ** 40 + 64, 2 ** 32], [2 ** 63 - 1])]
     rnd.shuffle(cases)
     return cases
 
@@ -1806,7 +1809,7 @@ def bigcpu_run(cases):
             if got.get("r") != "ok" or got.get("v") != kern:
                 bad.append(("bigcpu:get-vs-kernel", "%s: the get form -> %r, the kernel reports %r" % (what, got.get("v", got), kern), c))
             if c["kind"] == "invalid":
-                if res.get("r") != "ValueError":
+                if res.get("r") != "ValueError" and not (c.get("overflow_ok") and res.get("r") == "OverflowError"):
                     bad.append(("bigcpu:invalid:not-ValueError", "%s -> %r, expected ValueError" % (what, res), c))
                 if kern != before:
                     bad.append(("bigcpu:invalid:changed", "%s changed the mask from %r to %r" % (what, before, kern), c))
